@@ -1,6 +1,7 @@
 import CfdpVerif.Props.C18
 import CfdpVerif.Model.Dest
 import CfdpVerif.Lemmas.Monad
+import CfdpVerif.Lemmas.TrackerGrid
 /-!
 # C06 — NAKs request exactly what is missing
 
@@ -17,8 +18,18 @@ content, header configuration and maximum packet length:
 * nothing missing ⇒ no NAK, and the transfer proceeds to completion (`C06_nothing_missing`);
 * the immediate NAK for a gap requests exactly the gap `[last_end, offset)`, with a scope that
   encloses it (`C06_immediate_nak`).
-The link "tracker = bytes not stored" (`Inv_trk` of DESIGN.md §6) is NOT proved here; it is explored
-by the grid-history suites with an independent interval model (see MANIFEST / evidence).
+* the link "tracker = bytes no PDU delivered" for EVERY arrival history over the tiles of a segment grid
+  — any order, losses, duplicates, the EOF anywhere after them, retransmissions in any order —
+  (`C06_tracker_exact_all_histories`, `C06_tracker_exact_after_eof`; invariant `TInv` of
+  `Lemmas/TrackerGrid.lean`), tied to the handler method by method
+  (`C06_lost_segment_handling_is_tile`, `C06_feed_is_tiles`, `C06_no_error_eof_tail`,
+  `C06_deferred_first_issue`), hence: the deferred NAK sequence requests exactly the missing bytes and is
+  empty iff nothing is missing (`C06_nak_requests_exactly_missing`), the immediate NAK only bytes nobody
+  delivered, inside the known extent (`C06_immediate_nak_only_missing`).
+Not covered by these theorems: Metadata arriving late (the listing is then seeded by
+`_handle_fd_without_previous_metadata`; composed for one lost Metadata PDU in `Props/C03`), file data the
+filestore refused (the listing is updated before the write), non-grid segmentations (a removal that
+straddles a range is refused and swallowed: `C18_remove_straddle_refused`).
 -/
 set_option linter.unusedSimpArgs false
 set_option linter.unusedVariables false
@@ -191,5 +202,229 @@ theorem C06_no_nak_without_gap (d : DestSt) (off len : Nat) (hle : off ≤ d.p.l
   unfold lostSegmentHandling
   cases hrm : Tracker.remove d.p.trk off (off + len) <;>
     msimp [getP, hng, modP, hrm] <;> (repeat' split) <;> simp [stateOf, hrm]
+
+section EveryHistory
+open Cfdp.Tracker
+
+/-! ## The tracker is exactly what is missing — for every arrival history on a segment grid -/
+
+/-- **Every history, before the EOF.**  From a new transaction, after the File Data PDUs of any
+history over the tiles of the grid — any order, any tile any number of times, any tile never —, the
+tracker lists exactly the bytes below the in-order marker (the largest end seen) that no PDU delivered:
+nothing that was received, nothing beyond what is known of the file, and everything else. -/
+theorem C06_tracker_exact_all_histories (seg size : Nat) (hs : 0 < seg) (h : List (Nat × Nat))
+    (hT : ∀ q ∈ h, Tile seg size q.1 q.2) :
+    let s := (⟨0, 0, []⟩ : TS).tiles h
+    WF s.trk ∧ (∀ x, den s.trk x ↔ (x < s.le ∧ ¬ covered h x)) ∧ (∀ q ∈ h, q.2 ≤ s.le) ∧ s.le ≤ size := by
+  have := (TInv.init seg size).tiles hs h hT
+  simp only [List.nil_append] at this
+  exact ⟨this.wf, this.exact, this.hle, this.leSize⟩
+
+/-- **Every history, across the EOF.**  Tiles `h1` in any order with any losses and duplicates, the
+EOF (No error) announcing the file's size, retransmitted tiles `h2` in any order: the tracker lists
+exactly the bytes of `[0, size)` that no PDU of `h1 ++ h2` delivered.  With
+`C06_nak_sequence_exact` these are exactly the bytes every (re-)issue of the deferred NAK sequence
+requests; in particular the tracker is empty — and by `C06_nothing_missing` no NAK is sent and the
+transfer proceeds to completion — exactly when every byte of the file has arrived. -/
+theorem C06_tracker_exact_after_eof (seg size : Nat) (hs : 0 < seg) (h1 h2 : List (Nat × Nat))
+    (hT1 : ∀ q ∈ h1, Tile seg size q.1 q.2) (hT2 : ∀ q ∈ h2, Tile seg size q.1 q.2) :
+    let s := (((⟨0, 0, []⟩ : TS).tiles h1).eof size).tiles h2
+    WF s.trk ∧ (∀ x, den s.trk x ↔ (x < size ∧ ¬ covered (h1 ++ h2) x)) ∧
+      (s.trk = [] ↔ ∀ x, x < size → covered (h1 ++ h2) x) := by
+  have i1 := (TInv.init seg size).tiles hs h1 hT1
+  simp only [List.nil_append] at i1
+  have i2 := (i1.eof).tiles hs h2 hT2
+  have hle : ((((⟨0, 0, []⟩ : TS).tiles h1).eof size).tiles h2).le = size :=
+    TS.tiles_marker_of_full h2 hT2 _ rfl
+  refine ⟨i2.wf, fun x => by rw [i2.exact, hle], ?_⟩
+  constructor
+  · intro he x hx
+    have := (i2.exact x).2
+    rw [he, hle] at this
+    exact Classical.byContradiction fun hc => by simpa using this ⟨hx, hc⟩
+  · intro hall
+    cases htrk : ((((⟨0, 0, []⟩ : TS).tiles h1).eof size).tiles h2).trk with
+    | nil => rfl
+    | cons r t =>
+      have hw := i2.wf
+      rw [htrk] at hw
+      have hr : den ((((⟨0, 0, []⟩ : TS).tiles h1).eof size).tiles h2).trk r.1 := by
+        rw [htrk]; exact ⟨r, List.mem_cons_self, Nat.le_refl _, hw.2.1⟩
+      have := (i2.exact r.1).1 hr
+      rw [hle] at this
+      exact absurd (hall r.1 this.1) this.2
+
+/-! ### the handler performs exactly these steps -/
+
+/-- the three tracker fields of the receiver's parameters -/
+def tsOf (p : Params) : TS := ⟨p.lastStart, p.lastEnd, p.trk⟩
+
+/-- **`_lost_segment_handling` is `TS.tile`.**  For every receiver state with a remote configuration
+and every File Data PDU covering `[a, b)`, the method returns (it never raises: a refused removal is
+swallowed), and its effect on (last start, last end, tracker) is `TS.tile`; nothing else of the
+parameters that the tracker logic reads is touched. -/
+theorem C06_lost_segment_handling_is_tile (d : DestSt) (rc : RemoteCfg) (a b : Nat) (hab : a ≤ b)
+    (hrc : d.p.remoteCfg = some rc) :
+    ∃ d', lostSegmentHandling a (b - a) d = .ok () d' ∧ tsOf d'.p = (tsOf d.p).tile a b ∧
+      d'.p.remoteCfg = d.p.remoteCfg ∧ d'.p.fileSizeEof = d.p.fileSizeEof ∧ d'.p.progress = d.p.progress ∧
+      d'.fs = d.fs := by
+  have hb : a + (b - a) = b := by omega
+  unfold lostSegmentHandling
+  rw [hb]
+  by_cases h1 : a > d.p.lastEnd
+  · have h2 : a ≥ d.p.lastEnd := by omega
+    have h3 : ¬ b ≤ a ∨ b ≤ a := by omega
+    by_cases h4 : b ≤ a
+    · cases hr : Tracker.remove (Tracker.add d.p.trk (d.p.lastEnd, a)) a b <;> cases himm : rc.imm <;>
+        (apply Exists.intro; refine ⟨?_, ?_, ?_⟩
+         · msimp [getP, modP, addPacket, h1, h2, h4, hrc, himm, hr]; rfl
+         · simp [tsOf, TS.tile, h1, h2, h4, hr]
+         · simp [hrc])
+    · cases himm : rc.imm <;>
+        (apply Exists.intro; refine ⟨?_, ?_, ?_⟩
+         · msimp [getP, modP, addPacket, h1, h2, h4, hrc, himm]; rfl
+         · simp [tsOf, TS.tile, h1, h2, h4]
+         · simp [hrc])
+  · by_cases h2 : a ≥ d.p.lastEnd
+    · by_cases h4 : b ≤ a
+      · cases hr : Tracker.remove d.p.trk a b <;>
+          (apply Exists.intro; refine ⟨?_, ?_, ?_⟩
+           · msimp [getP, modP, addPacket, h1, h2, h4, hrc, hr]; rfl
+           · simp [tsOf, TS.tile, h1, h2, h4, hr]
+           · simp [hrc])
+      · apply Exists.intro; refine ⟨?_, ?_, ?_⟩
+        · msimp [getP, modP, addPacket, h1, h2, h4, hrc]; rfl
+        · simp [tsOf, TS.tile, h1, h2, h4]
+        · simp [hrc]
+    · by_cases h4 : b ≤ d.p.lastStart
+      · cases hr : Tracker.remove d.p.trk a b <;>
+          (apply Exists.intro; refine ⟨?_, ?_, ?_⟩
+           · msimp [getP, modP, addPacket, h1, h2, h4, hrc, hr]; rfl
+           · simp [tsOf, TS.tile, h1, h2, h4, hr]
+           · simp [hrc])
+      · apply Exists.intro; refine ⟨?_, ?_, ?_⟩
+        · msimp [getP, modP, addPacket, h1, h2, h4, hrc]; rfl
+        · simp [tsOf, TS.tile, h1, h2, h4]
+        · simp [hrc]
+
+/-- the File Data PDUs of a history handed to `_lost_segment_handling` one after the other -/
+def feedLsh (d : DestSt) (h : List (Nat × Nat)) : DestSt :=
+  h.foldl (fun d q => stateOf (lostSegmentHandling q.1 (q.2 - q.1) d)) d
+
+theorem C06_feed_is_tiles (h : List (Nat × Nat)) (hab : ∀ q ∈ h, q.1 ≤ q.2) :
+    ∀ (d : DestSt), d.p.remoteCfg ≠ none →
+      tsOf (feedLsh d h).p = (tsOf d.p).tiles h ∧ (feedLsh d h).p.remoteCfg = d.p.remoteCfg ∧
+      (feedLsh d h).p.progress = d.p.progress := by
+  induction h with
+  | nil => intro d _; exact ⟨rfl, rfl, rfl⟩
+  | cons q h ih =>
+    intro d hrc
+    obtain ⟨rc, hrc'⟩ := Option.ne_none_iff_exists'.mp hrc
+    obtain ⟨d', h1, h2, h3, -, h5, -⟩ := C06_lost_segment_handling_is_tile d rc q.1 q.2 (hab q List.mem_cons_self) hrc'
+    have hs : stateOf (lostSegmentHandling q.1 (q.2 - q.1) d) = d' := by rw [h1]; rfl
+    obtain ⟨i1, i2, i3⟩ := ih (fun r hr => hab r (List.mem_cons_of_mem _ hr)) d' (by rw [h3]; exact hrc)
+    simp only [feedLsh, List.foldl_cons, hs, TS.tiles] at i1 i2 i3 ⊢
+    exact ⟨by rw [i1, h2], by rw [i2, h3], by rw [i3, h5]⟩
+
+/-- **The EOF at the handler** (acknowledged mode, progress not beyond the announced size):
+`_handle_no_error_eof` makes the tail `[progress, size)` lost and goes on; the tracker is otherwise
+untouched and nothing is declared. -/
+theorem C06_no_error_eof_tail (env : Env) (d : DestSt) (fse : Nat) (hb : d.state = .busy)
+    (hm : d.p.conf.mode = .ack) (hf : d.p.fileSizeEof = some fse) (hp : d.p.progress ≤ fse) :
+    handleNoErrorEof env d = .ok true
+      { d with p := { d.p with trk := if d.p.progress < fse then Tracker.add d.p.trk (d.p.progress, fse)
+                                       else d.p.trk } } := by
+  have h1 : ¬ d.p.progress > fse := by omega
+  by_cases h2 : d.p.progress < fse
+  · msimp [handleNoErrorEof, getP, hf, h1, h2, transmissionMode, hb, hm, modP, noErrorEofVerify]
+  · msimp [handleNoErrorEof, getP, hf, h1, h2, transmissionMode, hb, hm, modP, noErrorEofVerify]
+    rw [← hb, ← hf]
+
+/-- the receiver after the first issue of the deferred NAK sequence -/
+def afterFirstIssue (env : Env) (d : DestSt) (rc : RemoteCfg) (fse m : Nat) : DestSt :=
+  let trk := Tracker.coalesce d.p.trk
+  let naks := nakSequence d.p.conf fse m d.p.metadataMissing trk
+  { d with step := if d.p.metadataMissing then .WAITING_FOR_METADATA else .WAITING_FOR_MISSING_DATA,
+           queue := d.queue ++ naks, numReady := d.numReady + naks.length,
+           p := { d.p with deferredActive := true, trk := trk, lastStart := fse, lastEnd := fse,
+                           procTimer := some ⟨env.now, rc.nakMs⟩ } }
+
+/-- **Start of the deferred procedure with something missing**: the listing is coalesced, the
+in-order marker jumps to the end of the file, the NAK timer starts, and exactly the NAK sequence of the
+coalesced listing is queued. -/
+theorem C06_deferred_first_issue (env : Env) (d : DestSt) (rc : RemoteCfg) (fse m : Nat)
+    (hnc : d.p.canceled = false) (hrc : d.p.remoteCfg = some rc) (hf : d.p.fileSizeEof = some fse)
+    (hmiss : Tracker.coalesce d.p.trk ≠ [] ∨ d.p.metadataMissing = true) (hpt : d.p.procTimer = none)
+    (hmax : maxSegReqs rc.maxPkt d.p.conf = some m) :
+    startDeferredLostSegmentHandling env d = .ok () (afterFirstIssue env d rc fse m) := by
+  have hne : ¬ ((Tracker.coalesce d.p.trk).length = 0 ∧ d.p.metadataMissing = false) := by
+    rintro ⟨h1, h2⟩
+    rcases hmiss with h | h
+    · exact h (List.eq_nil_of_length_eq_zero h1)
+    · rw [h] at h2; cases h2
+  have hne2 : ¬ (Tracker.coalesce d.p.trk = [] ∧ d.p.metadataMissing = false) := by
+    rintro ⟨h1, h2⟩; exact hne ⟨by rw [h1]; rfl, h2⟩
+  msimp [startDeferredLostSegmentHandling, getP, hf, modP, deferredLostSegmentHandling, hnc, hrc, hne, hne2, hpt,
+    hmax, addPackets, afterFirstIssue]
+
+/-- the bytes a list of NAK PDUs asks for -/
+def requested (naks : List Pdu) (x : Nat) : Prop := ∃ r ∈ flat naks, r.1 ≤ x ∧ x < r.2
+
+/-- **The deferred NAK sequence requests exactly what is missing — every history.**  Tiles `h1` in
+any order with any losses and duplicates, the EOF, retransmitted tiles `h2` in any order (none for the
+first issue): the NAK PDUs issued from the tracker then reached request, taken together, exactly the
+bytes of `[0, size)` that no PDU of the history delivered; every request is non-empty, the requests
+ascend without overlap; and no NAK is issued iff nothing is missing. -/
+theorem C06_nak_requests_exactly_missing (conf : Hdr) (seg size m : Nat) (hs : 0 < seg) (hm : 1 ≤ m)
+    (h1 h2 : List (Nat × Nat))
+    (hT1 : ∀ q ∈ h1, Tile seg size q.1 q.2) (hT2 : ∀ q ∈ h2, Tile seg size q.1 q.2) :
+    let trk := ((((⟨0, 0, []⟩ : TS).tiles h1).eof size).tiles h2).trk
+    let naks := nakSequence conf size m false trk
+    (∀ x, requested naks x ↔ (x < size ∧ ¬ covered (h1 ++ h2) x)) ∧
+    (∀ r ∈ flat naks, r.1 < r.2) ∧ List.Pairwise (fun p q : Nat × Nat => p.2 ≤ q.1) (flat naks) ∧
+    (naks = [] ↔ ∀ x, x < size → covered (h1 ++ h2) x) := by
+  intro trk naks
+  obtain ⟨hw, hd, he⟩ := C06_tracker_exact_after_eof seg size hs h1 h2 hT1 hT2
+  have hflat : flat naks = trk := by
+    simpa using C06_nak_sequence_exact conf size m hm false trk
+  obtain ⟨g1, g2⟩ := C18.C18_wf_means_ascending_nonempty hw
+  refine ⟨fun x => ?_, by rw [hflat]; exact g1, by rw [hflat]; exact g2, ?_⟩
+  · rw [← hd x]; simp only [requested, hflat, den]; rfl
+  · rw [← he]
+    constructor
+    · intro hn
+      have : trk = [] := by rw [← hflat, hn]; rfl
+      exact this
+    · intro ht
+      show nakSequence conf size m false trk = []
+      have : trk = [] := ht
+      rw [this]; simp [nakSequence, splitReqs]
+
+/-- **The immediate NAK requests only what is missing — every history.**  After any history `h` of
+tiles, a tile `[a, b)` beyond the in-order marker `le` arrives: the gap `[le, a)` that the immediate NAK
+requests (`C06_immediate_nak`) lies inside the extent known so far (`a < b ≤ size`, the NAK's scope is
+`(0, b)`) and no PDU of the history delivered any byte of it. -/
+theorem C06_immediate_nak_only_missing (seg size : Nat) (hs : 0 < seg) (h : List (Nat × Nat))
+    (hT : ∀ q ∈ h, Tile seg size q.1 q.2) (a b : Nat) (hTab : Tile seg size a b)
+    (hgap : ((⟨0, 0, []⟩ : TS).tiles h).le < a) :
+    a < b ∧ b ≤ size ∧ ∀ x, ((⟨0, 0, []⟩ : TS).tiles h).le ≤ x → x < a → ¬ covered h x := by
+  have i := (TInv.init seg size).tiles hs h hT
+  simp only [List.nil_append] at i
+  refine ⟨hTab.lt hs, hTab.le_size, fun x h1 _ ⟨q, hq, _, q2⟩ => ?_⟩
+  have := i.hle q hq; omega
+
+/-! ### non-vacuity: a 10-byte file in segments of 4; the last tile overtakes, the first arrives twice,
+the middle one only as a retransmission after the EOF -/
+
+example : Tile 4 10 0 4 ∧ Tile 4 10 4 8 ∧ Tile 4 10 8 10 := by
+  refine ⟨⟨⟨0, rfl⟩, by omega, rfl⟩, ⟨⟨1, rfl⟩, by omega, rfl⟩, ⟨⟨2, rfl⟩, by omega, rfl⟩⟩
+
+example : ((⟨0, 0, []⟩ : TS).tiles [(8, 10), (0, 4), (0, 4)]).trk = [(4, 8)] ∧
+    ((((⟨0, 0, []⟩ : TS).tiles [(8, 10), (0, 4), (0, 4)]).eof 10).tiles []).trk = [(4, 8)] ∧
+    ((((⟨0, 0, []⟩ : TS).tiles [(8, 10), (0, 4), (0, 4)]).eof 10).tiles [(4, 8)]).trk = [] ∧
+    ((⟨0, 0, []⟩ : TS).tiles [(0, 4)]).eof 10 = ⟨10, 10, [(4, 10)]⟩ := by
+  decide
+
+end EveryHistory
 
 end Cfdp.C06
